@@ -210,7 +210,7 @@ func (p *Parser) writeHelpOption(writer *bufio.Writer, option *Option, info alig
 		}
 	}
 
-	written := line.Len()
+	written := utf8.RuneCount(line.Bytes())
 	line.WriteTo(writer)
 
 	if option.Description != "" {
@@ -450,7 +450,7 @@ func (p *Parser) WriteHelp(writer io.Writer) {
 					wr.WriteString(argPrefix)
 
 					// Space between "arg:" and the description start
-					descPadding := strings.Repeat(" ", descStart-len(argPrefix))
+					descPadding := strings.Repeat(" ", descStart-utf8.RuneCountInString(argPrefix))
 					// How much space the description gets before wrapping
 					descWidth := aligninfo.terminalColumns - 1 - descStart
 					// Whitespace to which we can indent new description lines
